@@ -178,4 +178,16 @@ PROPS = {
                 "programs: k steps (k=0..3/4) at several testNowMS, steps with concurrent DELETE, steps with concurrent info calls, two concurrent sessions, real-time with DELETE after 1/5/7.3 s, real-time and step mode with duration 4/6 s",
         "assumptions": ["the receiver is an in-process http.RoundTripper: it reads the whole body, then answers; TCP-level behaviour of net/http is not modelled", "asset testpic_2s (2 s segments)"],
     },
+    "C07": {
+        "parts": [{"pkg": "livesim", "test": "TestVerifC07", "env": {"GOMAXPROCS": "1"}}],
+        "clauses": ["C07.history", "C07.concurrent", "C07.race", "C07.maporder", "C07.instance"],
+        "level": "model_checking",
+        "rule": "alphabet of ~52 requests (MPD types, init, media incl. re-segmented audio, ECCP/CPIX encrypted, chunked, subtitles, thumbnails, SCTE-35, patch, vod, pages, an ingest session cycle); "
+                "H1 explicit-state search over request histories keyed by a deep digest of all state reachable from the asset manager and the server configuration (every request from every reachable state); "
+                "H2 every ordered pair on a long-running server against the answer of a fresh server; "
+                "S every ordered pair as two threads under the vrt scheduler with scheduling points at locks, pool operations and response writes, at most 1 (quick) / 2 (thorough) deviations, vector-clock race detection on all struct fields of the module; "
+                "M every request under sorted, reversed and every single rotated map iteration order; I cache-loaded instance against scanning instance",
+        "assumptions": ["the state digest covers what is reachable from Server.assetMgr and Server.Cfg; templates, routers and the limiter are outside it (H2 does not depend on the digest)",
+                        "race detection covers struct fields of the module's own types (not the contents of byte slices, which are covered by the response comparison)"],
+    },
 }
